@@ -618,6 +618,13 @@ type ShardCounts struct {
 	// are unusable, i.e. missing or corrupt.
 	UnusableDataShardCount int
 
+	// MisplacedDataFileCount is the number of data files that are
+	// missing or don't have the expected contents even though all
+	// of their data shards are usable, e.g. because the shards
+	// were found at other offsets or in other files, or because
+	// the file has extra bytes.
+	MisplacedDataFileCount int
+
 	// UsableParityShardCount is the number of parity shards that
 	// exist, i.e. not missing and not corrupt.
 	UsableParityShardCount int
@@ -627,9 +634,9 @@ type ShardCounts struct {
 }
 
 // RepairNeeded returns whether repair is needed, i.e. whether
-// UnusableDataShardCount is non-zero.
+// UnusableDataShardCount or MisplacedDataFileCount is non-zero.
 func (fc ShardCounts) RepairNeeded() bool {
-	return fc.UnusableDataShardCount > 0
+	return fc.UnusableDataShardCount > 0 || fc.MisplacedDataFileCount > 0
 }
 
 // RepairPossible returns whether repair is possible i.e. whether
@@ -643,13 +650,20 @@ func (d *Decoder) ShardCounts() ShardCounts {
 	usableDataShardCount := 0
 	unusableDataShardCount := 0
 
+	misplacedDataFileCount := 0
+
 	for _, info := range d.fileIntegrityInfos {
+		allShardsUsable := true
 		for _, shardInfo := range info.shardInfos {
 			if shardInfo.data == nil {
 				unusableDataShardCount++
+				allShardsUsable = false
 			} else {
 				usableDataShardCount++
 			}
+		}
+		if allShardsUsable && !info.ok(d.sliceByteCount) {
+			misplacedDataFileCount++
 		}
 	}
 
@@ -667,6 +681,7 @@ func (d *Decoder) ShardCounts() ShardCounts {
 	return ShardCounts{
 		UsableDataShardCount:     usableDataShardCount,
 		UnusableDataShardCount:   unusableDataShardCount,
+		MisplacedDataFileCount:   misplacedDataFileCount,
 		UsableParityShardCount:   usableParityShardCount,
 		UnusableParityShardCount: unusableParityShardCount,
 	}
